@@ -773,13 +773,17 @@ func (g *Gen) genParse(p *Prog) {
 		s = []string{"", "+", "-"}[g.intn(3)] + m
 		if g.chance(0.5) {
 			e := g.intn(81) - 40
-			switch g.intn(12) {
+			switch g.intn(10) {
 			case 0:
 				e = int(decimal.MaxExp) - g.intn(70)
 			case 1:
 				e = int(decimal.MinExp) + g.intn(70)
 			case 2:
 				e = int(decimal.MaxExp) + g.intn(70)
+			case 3: // written exponent below the range, brought back (or not) by the integer digits
+				e = int(decimal.MinExp) - g.intn(70)
+			case 4: // exactly at the ends: the position of the radix point decides
+				e = []int{int(decimal.MinExp), int(decimal.MinExp) + 1, int(decimal.MinExp) - 1, int(decimal.MaxExp), int(decimal.MaxExp) - 1, int(decimal.MaxExp) + 1}[g.intn(6)]
 			}
 			s += string("eE"[g.intn(2)]) + fmt.Sprintf("%+d", e)
 			if g.chance(0.05) {
